@@ -1,4 +1,5 @@
-FIELDS = "aB bpos ainv sim noSimBad noUaf noDfree noPanic idleN cons0 alc pre pre0 newc preA preR nb0 nb1 nb2 drp dfl geo fresh tw nbv cl1 cl2 cl3 pset pcas cAl cWt cLk cTl lnk rdyR valR hd hb1 hb2 hb3 lHb lPi lCi lFast lStore lCopy lHead dE dF1 df2a df2b df3 oldR1 oldR2 liveR".split()
+import os
+FIELDS = "aB bpos ainv sim noSimBad noUaf noDfree noPanic idleN cons0 alc pre pre0 newc preA preR nb0 nb1 nb2 drp dfl geo fresh tw nbv cl1 cl2 cl3 pset psv pcas cAl cWt cLk cTl lnk rdyR valR hd hb1 hb2 hb3 lHb lPi lCi lFast lStore lCopy lRd lHead dE dF1 df2a df2b df3 oldR1 oldR2 liveR".split()
 HN = {f:f for f in FIELDS}
 HN.update({'noSimBad':'nSB','noUaf':'nUaf','noDfree':'nDf','noPanic':'nPn'})
 G = {
@@ -9,11 +10,11 @@ G = {
  'life': 'idleN cons0 alc pre pre0 newc preA preR nb0 nb1 nb2 drp dfl'.split(),
  'geo': 'geo fresh'.split(),
  'tail': 'tw nbv pidxA'.split(),
- 'clo': 'cl1 cl2 cl3 pset pcas cAl cWt cLk cTl refR unl'.split(),
+ 'clo': 'cl1 cl2 cl3 pset psv psU pcas cAl cWt cLk cTl refR unl'.split(),
  'lnk': ['lnk'],
  'slot': 'rdyR valR'.split(),
  'head': 'hd hb1 hb2 hb3 anh'.split(),
- 'loc': 'lHb lPi lCi lFast lStore lCopy lHead'.split(),
+ 'loc': 'lHb lPi lCi lFast lStore lCopy lRd lHead'.split(),
  'drop': 'dE dF1 df2a df2b df3 dT dEf'.split(),
  'live': 'oldR1 oldR2 liveR'.split(),
  'misc': "ainv sim hA' hsim".split(),
@@ -36,8 +37,8 @@ K = {
  'df2a':'drop live head loc life tail clo Aq','df2b':'drop live head loc life tail clo Aq','df3':'drop live head loc life tail clo Aq',
  'oldR1':'live head loc life tail clo drop geo Aq','oldR2':'live head loc life tail clo drop geo Aq','liveR':'live head loc life tail clo drop geo Aq',
 }
-for f in 'cl1 cl2 cl3 pset pcas cAl cWt cLk cTl'.split(): K[f]='life tail clo A geo lnk'
-for f in 'lHb lPi lCi lFast lStore lCopy lHead'.split(): K[f]='head loc life A Aq drop tail lnk clo x'
+for f in 'cl1 cl2 cl3 pset psv pcas cAl cWt cLk cTl'.split(): K[f]='life tail clo A geo lnk'
+for f in 'lHb lPi lCi lFast lStore lCopy lRd lHead'.split(): K[f]='head loc life A Aq drop tail lnk clo x'
 def keep(f):
     k=K[f]
     if isinstance(k,str): k=k.split()
@@ -70,7 +71,7 @@ def case(f):
      clearIf {cl}
      (first | simp only [{SIMP}] | skip) <;> grind"""
 names=', '.join(HN[f] for f in FIELDS)
-allh=' '.join([HN[f] for f in FIELDS]+"A_hl A_lr A_lc A_helped A_rdy psetA waitA psetB hbT refR dT pidxA anh unl dEf hA' hsim".split())
+allh=' '.join([HN[f] for f in FIELDS]+"A_hl A_lr A_lc A_helped A_rdy psetA waitA psetB hbT refR psU dT pidxA anh unl dEf hA' hsim".split())
 SIMPX=SIMP.replace("hu0, ","")
 ALLS=" ".join(ALL)
 src=f"""/-
@@ -98,9 +99,8 @@ macro "bspecC" : tactic => `(tactic|
 set_option hygiene false in
 /-- the stepping actor is actor 0: evaluate the clauses about `pcs 0` at `hpc : pcs 0 = …` -/
 macro "bspec0" : tactic => `(tactic|
-  (simp [hpc, isNew, taken, inRetire, atNextHead, dropDone, dflag, dEnd, kd, locHb, locPi, locCi] at nb1 nb2 dfl hd hb2 hb3 lHb lPi lCi lFast lStore lCopy lHead dE dF1 df2a df2b df3 oldR1 oldR2 liveR hbT dT anh
+  (simp [hpc, isNew, taken, inRetire, atNextHead, dropDone, dflag, dEnd, kd, locHb, locPi, locCi, isFast, isCopy, ceOf, isRd] at nb1 nb2 dfl hd hb2 hb3 lHb lPi lCi lFast lStore lCopy lRd lHead dE dF1 df2a df2b df3 oldR1 oldR2 liveR hbT dT anh
    (try subst lHb); (try subst lPi); (try subst lCi); (try subst lHead)
-   (try (have lCopy := lCopy _ _ _ _ rfl rfl rfl rfl))
    have hu0 : ∀ pc, upd pcs 0 pc 0 = pc := fun _ => by simp [upd]))
 
 set_option hygiene false in
@@ -111,14 +111,15 @@ macro "bnonzero" : tactic => `(tactic|
 set_option hygiene false in
 /-- destructure `h : Inv ⟨n, sh, pcs, apcs⟩`; expects `hlt : t < n`, `hpc : pcs t = …`, and the variable `aa` -/
 macro "bdestr" tt:term : tactic => `(tactic|
-  (have psetA := h.psetA; have waitA := h.waitA; have psetB := h.psetB; have hbT := h.hbT; have refR := h.refR; have dT := h.dT; have pidxA := h.pidxA; have anh := anh_of (pcs 0); have dEf := dEf_of (pcs 0); have unl := unl_of (pcs (sh.a.own (sh.a.res - 1)))
+  (have psetA := h.psetA; have waitA := h.waitA; have psetB := h.psetB; have hbT := h.hbT; have refR := h.refR; have psU := h.psU; have dT := h.dT; have pidxA := h.pidxA; have anh := anh_of (pcs 0); have dEf := dEf_of (pcs 0); have unl := unl_of (pcs (sh.a.own (sh.a.res - 1)))
    obtain ⟨{names}⟩ := h
    have A_hl := ainv.hl; have A_lr := ainv.lr; have A_lc := ainv.lc; have A_helped := ainv.helped
    have A_rdy := fun i hi => (ainv.rdy i hi).1
    have hA' := ainv_adv n sh.a apcs $tt aa hlt ainv
    have hsim := sim $tt
    simp only at {allh}
-   rw [hpc] at hsim; simp only [proj] at hsim; rw [hsim] at hA'; rw [hsim]))
+   simp only [clo] at nbv cl1 cl2 cl3 pset lnk
+   rw [hpc] at hsim; simp only [proj, eq_self, Bool.false_eq_true, ↓reduceIte] at hsim; rw [hsim] at hA'; rw [hsim]))
 
 set_option hygiene false in
 /-- split `hts : tstepC … = some (sh', pc', aa)` into the branches of the concrete step -/
@@ -146,4 +147,4 @@ macro "bfinNoSlot" tt:term : tactic => `(tactic|
 
 end MayVerif.Mpsc
 """
-open('/tmp/wp_mpsc/lean/MayVerif/Proof/Queue/Mpsc/Tac.lean','w').write(src)
+open(os.path.join(os.path.dirname(os.path.dirname(os.path.abspath(__file__))), 'Tac.lean'),'w').write(src)
